@@ -167,10 +167,20 @@ class SmtpHooks(QHooks):
 
 # ---------------------------------------------------------------- smtpcode framing
 class CodeHooks(QHooks):
-    def __init__(self):
+    """smtpcode() fed one reply byte at a time through the library read it ends in (whatever helper wraps it): the first line
+    carries the digits of `code`, continuation lines carry 999; the byte behind the code is "-", LF or something else; the rest
+    of a line is any bytes up to LF"""
+    def __init__(self, code):
+        self.code = code
         self.sites = {}
         self.gets = 0
         self.returns = 0
+
+    def tracked_global(self, path):
+        return True
+
+    def precise_arith(self, path):
+        return True
 
     def site(self, inst, x, ok, detail, E):
         prev = self.sites.get(inst)
@@ -183,35 +193,34 @@ class CodeHooks(QHooks):
         v = E.get(k)
         return next(iter(v)) if v else d
 
-    def prim_stralloc_copys(self, E, x, args):
+    def _one(self, E, x, args):
         return [Outcome(ret=fs(1))]
 
-    def prim_get(self, E, x, args):
+    prim_stralloc_copys = prim_stralloc_copyb = prim_stralloc_append = prim_stralloc_catb = prim_stralloc_cats = _one
+
+    def prim_substdio_get(self, E, x, args):
         self.gets += 1
         chp = None
-        if args[0] is not TOP and len(args[0]) == 1:
-            (a,) = args[0]
+        if len(args) > 1 and args[1] is not TOP and len(args[1]) == 1:
+            (a,) = args[1]
             if isinstance(a, tuple) and a[0] == '&':
                 chp = a[1]
         if chp is None:
-            raise AnalysisBroken('smtpcode: get() argument shape changed')
+            raise AnalysisBroken('smtpcode: the reply is not read byte by byte through substdio_get(stream, &byte, 1)')
         if self.g(E, '$done', 0):
             self.site('stop-at-end-of-reply', x, False, 'smtpcode() reads beyond the LF that ends the reply (the next reply would be consumed)', E)
             return [Outcome(ret=TOP)]
         pos = self.g(E, '$pos', 0)
         line = self.g(E, '$line', 0)
         final = self.g(E, '$final', 0)
+        BYTE = frozenset(range(-128, 128))
+        if pos in (0, 1, 2):
+            d = ord(('%03d' % self.code)[pos]) if line == 0 else ord('9')
+            return [Outcome(ret=fs(1), sets={chp: fs(d), '$pos': fs(pos + 1)}, log='reply line %d: digit %s' % (line, chr(d)))]
         outs = []
-        BYTE = frozenset(range(256))
         for name, vals in (('DASH', fs(45)), ('LF', fs(10)), ('other', BYTE - {45, 10})):
             st = {chp: vals}
-            kill = False
-            if pos in (0, 1, 2):
-                if name == 'LF':
-                    kill = True      # a line shorter than its code: outside the property's domain
-                st['$pos'] = fs(pos + 1)
-                st['$ncode'] = fs(min(self.g(E, '$ncode', 0) + (1 if line == 0 else 0), 3))
-            elif pos == 3:
+            if pos == 3:
                 if name == 'DASH':
                     st['$final'] = fs(0)
                     st['$pos'] = fs(4)
@@ -221,31 +230,25 @@ class CodeHooks(QHooks):
                 else:
                     st['$final'] = fs(1)
                     st['$pos'] = fs(4)
-            else:
-                if name == 'LF':
-                    if final:
-                        st['$done'] = fs(1)
-                    else:
-                        st['$pos'] = fs(0)
-                        st['$line'] = fs(min(line + 1, 2))
-            if kill:
-                outs.append(Outcome(ret=TOP, sets=st, apply=lambda E2: E2.kill()))
-            else:
-                outs.append(Outcome(ret=TOP, sets=st, log='reply byte %s (line %d pos %s)' % (name, line, pos)))
+            elif name == 'LF':
+                if final:
+                    st['$done'] = fs(1)
+                else:
+                    st['$pos'] = fs(0)
+                    st['$line'] = fs(min(line + 1, 2))
+            outs.append(Outcome(ret=fs(1), sets=st, log='reply byte %s (line %d pos %s)' % (name, line, pos)))
         return outs
 
-    def on_assign(self, E, x, path, val):
-        if path.split('::')[-1].startswith('L:code'):
-            ok = self.g(E, '$line', 0) == 0 and self.g(E, '$pos', 0) <= 3
-            self.site('code-from-first-three-bytes', x, ok, 'the returned code is modified after the first three bytes of the reply', E)
-            E.set('$nasg', fs(min(self.g(E, '$nasg', 0) + 1, 4)))
-
     def on_return(self, E, fn, val):
+        if fn.name != 'smtpcode':
+            return
         self.returns += 1
         self.site('return-exactly-at-end-of-reply', None, self.g(E, '$done', 0) == 1,
                   'smtpcode() returns in the middle of a reply (line %s, pos %s, final=%s): the rest would be taken for the next reply' %
                   (self.g(E, '$line', 0), self.g(E, '$pos', 0), self.g(E, '$final', 0)), E)
-        self.site('code-assigned-from-three-digits', None, self.g(E, '$nasg', 0) == 3, 'code assigned %s time(s)' % self.g(E, '$nasg', 0), E)
+        got = next(iter(val)) if val is not TOP and len(val) == 1 else None
+        self.site('code-from-first-three-bytes', None, got == self.code,
+                  'a reply whose first line starts with %d (continuation lines with 999) is returned as %s' % (self.code, got if got is not None else sorted(val)[:4] if val is not TOP else 'undetermined'), E)
 
 
 # ---------------------------------------------------------------- rspawn report()
@@ -765,15 +768,20 @@ def run(ctx):
     # ---- 4 smtpcode framing
     r4 = rep.rule('C09.4-reply-framing', 'R-TRANSDUCER', 'smtpcode(): a reply ends at the LF of the first line whose 4th byte is not "-"; the code comes from the first three bytes (lines shorter than their code: don\'t care)')
     sc = prog.fn('smtpcode', 'qmail-remote.c')
-    H4 = CodeHooks()
-    eng4 = Engine(db, prog, H4)
-    eng4.run(sc)
-    rep.count_states(eng4.states, eng4.transitions)
-    for inst, (ok, where, detail, path) in sorted(H4.sites.items()):
+    sites4 = {}
+    for code4 in (250, 451, 554, 199):
+        H4 = CodeHooks(code4)
+        eng4 = Engine(db, prog, H4, max_states=400000)
+        eng4.run(sc)
+        rep.count_states(eng4.states, eng4.transitions)
+        for inst, v in H4.sites.items():
+            if inst not in sites4 or (sites4[inst][0] and not v[0]):
+                sites4[inst] = v
+        if H4.gets < 4 or (H4.returns == 0 and all(v[0] for v in H4.sites.values())):
+            raise AnalysisBroken('smtpcode(): reads/returns not explored')
+    for inst, (ok, where, detail, path) in sorted(sites4.items()):
         r4.check(ok, inst, where, detail, path)
-    if H4.gets < 4 or (H4.returns == 0 and all(v[0] for v in H4.sites.values())):
-        raise AnalysisBroken('smtpcode(): get()/return not explored')
-    r4.expect_min(3)
+    r4.expect_min(2)
     rep.exhaustive_rules.append('C09.4-reply-framing')
 
     # ---- 5 rspawn report
